@@ -10,7 +10,7 @@ RULE = ('Cases = target (return value / echo of args+kwargs / raise) x value sha
         'strings from 0 B to 4 MiB straddling the drawn pipe / TCP capacity) x exception classes with arguments x {constructor, '
         'Worker.create} x {run None/True/False, target None}; thread, process and remote worker are created in the same run '
         'under one schedule and compared with the direct call and with each other.')
-ASSUMPTIONS = ['fault-free except segmentation, small buffers, latency', 'classes defined in an importable module only '
+ASSUMPTIONS = ['fault-free except segmentation, small buffers, latency, a stalled (slow) parent-side receiver thread', 'classes defined in an importable module only '
                '(per-process __main__ re-execution is a stub)']
 
 SIZES = [0, 1, 100, 4095, 4096, 65535, 65536, 65537, 70000, 95232, 100000, 300000, 1 << 20, 4 << 20]
@@ -36,9 +36,17 @@ def gen_case(ctx, rng, i, tag='random', big_bias=0.35):
         e = rng.choice(EXCS)
         spec = {'fn': 't_raise', 'kwargs': {'name': e[0], 'args': e[1]}}
     mode = rng.choice(['run-default'] * 6 + ['run-true', 'run-false', 'target-none', 'target-none-run-false'])
+    fault = None
+    if rng.random() < 0.35:
+        # slow parent-side receiver: the frontend thread of the remote worker is descheduled at a line boundary while it
+        # receives / rebuilds the result (the remote process may well be gone by then)
+        fault = {'kind': 'stall', 'role': 'RemoteWorker._run_frontend', 'qualname': rng.choice(['recv_msg', 'RemoteWorker._fetch_results']),
+                 'occ': rng.randrange(1, 75), 'duration': rng.choice([0.3, 3.0])}
     factory = rng.choice(['ctor', 'create'])
     return {'kind': 'all', 'spec': spec, 'mode': mode, 'factory': factory, 'order': rng.sample(['thread', 'process', 'remote'], 3),
-            'concurrent': rng.random() < 0.5, 'policy': pol, 'knobs': knobs, 'sched_seed': ctx.case_seed(tag, i)}
+            'concurrent': rng.random() < 0.5, 'policy': pol, 'knobs': knobs, 'sched_seed': ctx.case_seed(tag, i),
+            # how the caller waits: one untimed wait(), a polling loop of timed waits, or polling is_alive() and then wait()
+            'fault': fault, 'waitstyle': rng.choice(['plain', 'plain', 'poll-wait', 'poll-alive']), 'poll_t': rng.choice([0.02, 0.1, 1.0])}
 
 
 def direct(spec):
@@ -61,6 +69,7 @@ class Run:
         s, c = self.sim, self.case
         spec = c['spec']
         srv = lib.start_server()
+        C.install_fault(s, c.get('fault'))
         mode = c['mode']
         target = T.TARGETS[spec['fn']]
         kw = {}
@@ -108,7 +117,27 @@ class Run:
         rec = {}
         if self.exp[0] == 'notrun':
             rec['alive_at_once'] = lib.timed(w.is_alive)[1]
-        st = lib.call_with_deadline(w.wait, 3600.0)
+        style = self.case.get('waitstyle', 'plain')
+        if style == 'plain' or self.exp[0] == 'notrun':
+            st = lib.call_with_deadline(w.wait, 3600.0)
+        else:
+            pt = self.case.get('poll_t', 0.1)
+            end = s.now + 120.0
+
+            def poll():
+                if style == 'poll-wait':
+                    while not w.wait(pt):
+                        if s.now > end:
+                            return 'poll-deadline'
+                    return True
+                while w.is_alive():
+                    if s.now > end:
+                        return 'poll-deadline'
+                    s.sleep(pt)
+                return w.wait()
+            st = lib.call_with_deadline(poll, 3600.0)
+            if st == ('ok', 'poll-deadline') or (st[0] == 'ok' and st[1] == 'poll-deadline'):
+                st = ('hung', None)
         rec['wait'] = st[0] if st[0] != 'ok' else st[1]
         if st[0] == 'exc':
             rec['wait_exc'] = type(st[1]).__name__
@@ -206,3 +235,7 @@ def shrink(case):
     if len(c['order']) > 1:
         for k in c['order']:
             yield dict(c, order=[x for x in c['order'] if x != k])
+    if c.get('fault'):
+        yield dict(c, fault=None)
+    if c.get('waitstyle', 'plain') != 'plain':
+        yield dict(c, waitstyle='plain')
